@@ -39,6 +39,7 @@ class C17(Prop):
                     forms.append(full)
                 forms.append(b'http://h' + full)
                 forms.append(b'http://h:80' + full)
+                forms.append(b'http://' + full)          # empty host: http:///a/b has the path /a/b
                 if full:
                     forms.append(b'http:/' + full)
                 for u in forms:
